@@ -21,7 +21,8 @@ the double binary search (as file, then as directory; insertion index chosen by
 placeholders, `needs_sorting`, `forget_cached_trees_below`, `UpsertMode::{Normal,AssureTreeOnly}`,
 `trees.entry(path).or_insert(find_tree(id) | Tree::default())`.
 `writeTree` is the bottom-up recursion the stack machine of `write_at_pathbuf` implements: cached
-sub-trees are taken out of `trees` and written children-first, null-id entries are dropped, empty
+sub-trees are taken out of `trees` and written children-first, null-id entries are dropped
+(`retain(|e| !e.oid.is_null())`, here decided per entry once its sub-tree is written), empty
 sub-trees are removed from their parent instead of being written, the root is always written;
 `WriteMode::Normal` clears `trees`, `FromCursor` keeps it. (The order of `out` calls among
 siblings and the `parents`/`children` stacks are not modelled; the number of `out` calls and every
@@ -212,24 +213,37 @@ structure WState where
   calls : Nat
   deriving Repr
 
+/-- thread a state through a list, collecting one output per element -/
+def mapAccum (f : σ → α → σ × β) : σ → List α → σ × List β
+  | s, [] => (s, [])
+  | s, a :: as =>
+    let r1 := f s a
+    let r2 := mapAccum f r1.1 as
+    (r2.1, r1.2 :: r2.2)
+
+/-- What becomes of one entry `e` of the tree at `path` when that tree is written; `rec` writes a
+cached sub-tree. `none`: the entry is dropped (null id, or its sub-tree ended up empty). -/
+def wstep (hash : List Entry → Bytes) (rec : WState → Path → List Entry → WState × List Entry)
+    (path : Path) (st : WState) (e : Entry) : WState × Option Entry :=
+  let keep (e : Entry) : Option Entry := if e.oid == nullId then none else some e
+  if e.isTree then
+    match aget (path ++ [e.name]) st.cache with
+    | some sub =>
+      let r := rec { st with cache := aerase (path ++ [e.name]) st.cache } (path ++ [e.name]) sub
+      if r.2.isEmpty then (r.1, none)
+      else ({ r.1 with store := aset (hash r.2) r.2 r.1.store, calls := r.1.calls + 1 },
+            keep { e with oid := hash r.2 })
+    | none => (st, keep e)
+  else (st, keep e)
+
 /-- Write the cached sub-trees of `tree` (which lives at `path`) children-first and return `tree`
 with the written ids filled in, empty children removed and null-id entries dropped. Fuel: every
 recursive call takes one entry out of `cache`, so `cache.length` suffices. -/
 def writeTree (hash : List Entry → Bytes) : Nat → WState → Path → List Entry → WState × List Entry
   | 0, st, _, tree => (st, tree)
   | fuel + 1, st, path, tree =>
-    let r := tree.foldl (fun (acc : WState × List Entry) e =>
-      if e.isTree then
-        match aget (path ++ [e.name]) acc.1.cache with
-        | some sub =>
-          let r := writeTree hash fuel { acc.1 with cache := aerase (path ++ [e.name]) acc.1.cache }
-            (path ++ [e.name]) sub
-          if r.2.isEmpty then (r.1, acc.2)
-          else ({ r.1 with store := aset (hash r.2) r.2 r.1.store, calls := r.1.calls + 1 },
-                acc.2 ++ [{ e with oid := hash r.2 }])
-        | none => (acc.1, acc.2 ++ [e])
-      else (acc.1, acc.2 ++ [e])) (st, [])
-    (r.1, r.2.filter (fun e => e.oid != nullId))
+    let r := mapAccum (wstep hash (writeTree hash fuel) path) st tree
+    (r.1, r.2.filterMap id)
 
 inductive WriteRes where
   | ok (id : Bytes) (calls : Nat) (ed : Ed)
